@@ -17,14 +17,14 @@ cd /verif
 VERIF_REPO=$wt VERIF_OUT=$out ./check $prop --tier $tier "$@" > /tmp/seedrun-$seed.log 2>&1; rc=$?
 git -C /repo worktree remove --force $wt
 rm -rf $out
-python3 - "$seed" "$tier" "$rc" <<'PY'
+python3 - "$seed" "$tier" "$rc" "$*" <<'PY'
 import json,sys,re
-seed,tier,rc=sys.argv[1:4]
+seed,tier,rc,extra=sys.argv[1:5]
 mp=f'/verif/seeded/{seed}/meta.json'; m=json.load(open(mp))
 log=open(f'/tmp/seedrun-{seed}.log').read()
 cex=[l.strip()[:240] for l in log.splitlines() if l.strip().startswith('counterexample')][:3]
 d=m.get('detected_by') or {}
-d[tier]={'detected': rc=='1', 'exit': int(rc), 'first_counterexamples': cex, 'cmd': f'tools/run_seed.sh {seed} {tier}  (scratch worktree of /repo HEAD + patch.diff; VERIF_REPO=<worktree> ./check {seed.split("-")[0]} --tier {tier})'}
+d[tier]={'detected': rc=='1', 'exit': int(rc), 'first_counterexamples': cex, 'cmd': f'tools/run_seed.sh {seed} {tier}  (scratch worktree of /repo HEAD + patch.diff; VERIF_REPO=<worktree> ./check {seed.split("-")[0]} --tier {tier}' + (' ' + extra if extra else '') + ')'}
 m['detected_by']=d
 json.dump(m,open(mp,'w'),indent=1)
 PY
